@@ -288,20 +288,20 @@ Theorem C06_value_text_parses :
 Proof. exact css_parse_render. Qed.
 Print Assumptions C06_value_text_parses.
 
-(* END TO END.  The user's table [raw] holds  key -> "prop:" ++ first ++ "|" ++ alt2 ++ "|" ...  where [first] is the
-   text of ANY written value [v]; the other alternatives only have to parse ([map_res parse_value]: otherwise the
+(* END TO END.  The user's table [raw] holds  key -> "prop:" ++ blanks ++ first ++ "|" ++ alt2 ++ "|" ... ++ semicolons  where
+   [first] is the text of ANY written value [v]; the other alternatives only have to parse ([map_res parse_value]: otherwise the
    table does not convert at all) and, like the first, contain no `|`; the text after the colon contains no line
    break and no `;` ([group_ok]: the regular expression of create_snippet ends a property snippet there).  Then typing
    the key prints  prop<between> + the first alternative with every leaf token in a tabstop numbered 1..k in document
    order + <after>.
    PARTIAL with respect to the statement "for all user property snippets": the layout of the text is the canonical one
-   (exactly one blank between tokens, ", " between arguments, nothing between the colon and the value, no trailing
-   `;`); other layouts and explicit ${n:..} fields written in the text are covered by the parsed-level theorems above
+   (exactly one blank between tokens, ", " between arguments, no blank before the colon; any white space after the
+   colon and any number of trailing `;` are covered); other layouts and explicit ${n:..} fields written in the text are covered by the parsed-level theorems above
    (C06_user_value_line_*_partial, for all parsed values) and by the harness, not by a theorem about the text. *)
 Theorem C06_user_snippet_wrapped_partial :
-  forall cfg raw sn key prop v o others po pothers,
+  forall cfg raw sn key prop ws ss v o others po pothers,
     convert_snippets raw = Ok sn -> NoDup (map (fun kv => lower (fst kv)) raw) ->
-    In (key, prop ++ c_colon :: join [c_pipe] (render v :: o :: others)) raw ->
+    In (key, prop ++ c_colon :: ws ++ join [c_pipe] (render v :: o :: others) ++ ss) raw -> blanks ws -> semis ss ->
     name_ok key -> str_eqb key gradient_name = false -> c_context cfg = None -> c_json cfg = false ->
     prop_ok prop -> toks_ok v -> v <> [] ->
     group_ok (join [c_pipe] (render v :: o :: others)) ->
@@ -316,9 +316,9 @@ Print Assumptions C06_user_snippet_wrapped_partial.
 (* one alternative: unwrapped; [unit_given]: numbers at the top level carry a unit that is not a unit alias (C05 owns
    the unit rule); [printable]: the texts contain no line break *)
 Theorem C06_user_snippet_plain_partial :
-  forall cfg raw sn key prop v,
+  forall cfg raw sn key prop ws ss v,
     convert_snippets raw = Ok sn -> NoDup (map (fun kv => lower (fst kv)) raw) ->
-    In (key, prop ++ c_colon :: render v) raw ->
+    In (key, prop ++ c_colon :: ws ++ render v ++ ss) raw -> blanks ws -> semis ss ->
     name_ok key -> str_eqb key gradient_name = false -> c_context cfg = None -> c_json cfg = false ->
     prop_ok prop -> toks_ok v -> v <> [] ->
     group_ok (render v) -> no_char c_pipe (render v) ->
@@ -330,9 +330,9 @@ Print Assumptions C06_user_snippet_plain_partial.
 
 (* ... "its first listed value" verbatim, when every token prints as it is written (canonical numbers and colours) *)
 Theorem C06_user_snippet_plain_verbatim_partial :
-  forall cfg raw sn key prop v,
+  forall cfg raw sn key prop ws ss v,
     convert_snippets raw = Ok sn -> NoDup (map (fun kv => lower (fst kv)) raw) ->
-    In (key, prop ++ c_colon :: render v) raw ->
+    In (key, prop ++ c_colon :: ws ++ render v ++ ss) raw -> blanks ws -> semis ss ->
     name_ok key -> str_eqb key gradient_name = false -> c_context cfg = None -> c_json cfg = false ->
     prop_ok prop -> toks_ok v -> v <> [] ->
     group_ok (render v) -> no_char c_pipe (render v) ->
@@ -362,8 +362,9 @@ Example C06_user_snippet_nonvacuous :
   let px (n : str) := SNum (mkNum false n None (lit "px")) in
   let v := [SCall (lit "f") [[SCall (lit "g") [[px (lit "1"); px (lit "2")]; [px (lit "3")]]]; [SCol (mkCol (lit "fff") None)]];
             SKw (lit "no-repeat")] in
-  let text := lit "m:f(g(1px 2px, 3px), #fff) no-repeat|none" in
-  text = lit "m" ++ c_colon :: join [c_pipe] [render v; lit "none"] /\
+  let text := lit "m: f(g(1px 2px, 3px), #fff) no-repeat|none;" in
+  text = lit "m" ++ c_colon :: lit " " ++ join [c_pipe] [render v; lit "none"] ++ lit ";" /\
+  blanks (lit " ") /\ semis (lit ";") /\
   toks_ok v /\ prop_ok (lit "m") /\ group_ok (join [c_pipe] [render v; lit "none"]) /\
   no_char c_pipe (render v) /\ Forall (no_char c_pipe) [lit "none"] /\
   (exists po, map_res parse_value [lit "none"] = Ok [po]) /\
@@ -371,7 +372,7 @@ Example C06_user_snippet_nonvacuous :
   lit "m" ++ c_between cfg ++ wprint (relabel (field_of cfg) (map (printed cfg) v)) ++ c_after cfg
   = lit "m: f(g(${1:1px} ${2:2px}, ${3:3px}), ${4:#fff}) ${5:no-repeat};".
 Proof.
-  cbv zeta. split; [vm_compute; reflexivity|].
+  cbv zeta. split; [vm_compute; reflexivity|]. split; [repeat constructor|]. split; [repeat constructor|].
   split; [cbn; unfold numv_ok, colv_ok, all_digits, unit_ok; cbn; wf_tac|].
   split; [split; [discriminate|repeat constructor]|].
   split; [split; [vm_compute; repeat constructor|vm_compute; reflexivity]|].
